@@ -24,6 +24,7 @@ func vCfgFromParams() vCfg {
 		n:       vChoose("n", vParam("nmin"), vParam("nmax")),
 		klen:    vParam("klen"),
 		vlen:    vParam("vlen"),
+		vlenMin: vParam("vlenmin"),
 		variant: vParam("variant"),
 	}
 	switch vParam("store") {
